@@ -58,7 +58,10 @@ func (rule *RuleEvents) checkCron(spec *String) {
 	p := cron.NewParser(cron.Minute | cron.Hour | cron.Dom | cron.Month | cron.Dow)
 	sched, err := p.Parse(spec.Value)
 	if err != nil {
-		rule.Errorf(spec.Pos, "invalid CRON format %q in schedule event: %s", spec.Value, err.Error())
+		// The error message from the cron parser may contain the input as-is. Replace white spaces
+		// including line breaks with single spaces to keep the error message in one line
+		msg := strings.Join(strings.Fields(err.Error()), " ")
+		rule.Errorf(spec.Pos, "invalid CRON format %q in schedule event: %s", spec.Value, msg)
 		return
 	}
 
